@@ -43,6 +43,12 @@ def call_alignment(continuum, dissim, backend, kind, spy):
             res = fn(dissim)
         finally:
             spy.fail_cbc = False
+    elif backend == "allfail":
+        spy.fail_all = True
+        try:
+            res = fn(dissim)
+        finally:
+            spy.fail_all = False
     else:
         res = fn(dissim)
     return res, spy.take()
@@ -55,6 +61,12 @@ def solver_config(spy, backend):
     if backend == "glpk":
         with monitors.cylp_masked():
             yield
+    elif backend == "allfail":
+        spy.fail_all = True
+        try:
+            yield
+        finally:
+            spy.fail_all = False
     elif backend and backend.startswith("cbcfail"):
         spy.fail_cbc = True if backend == "cbcfail" else int(backend[len("cbcfail"):])
         spy.cbc_calls = 0
